@@ -39,14 +39,15 @@ type Msg struct {
 
 // Rig owns the scripted peers and the logs.
 type Rig struct {
-	mu       sync.Mutex
-	dials    []string
-	msgs     []Msg
-	accepts  map[string]int
+	mu        sync.Mutex
+	dials     []string
+	msgs      []Msg
+	accepts   map[string]int
 	origin    net.Listener
 	originTLS net.Listener
 	tlsConfig *tls.Config // set by StartTLSOrigin: every scripted peer then also answers TLS
 	upstream  net.Listener
+	upstream2 net.Listener // a second upstream proxy on the same host, another port (Peer "upstream2")
 	// UpstreamRequire, when non-empty, makes the upstream proxy answer 407 unless Proxy-Authorization equals it.
 	UpstreamRequire string
 	closed          chan struct{}
@@ -62,7 +63,11 @@ func NewRig() (*Rig, error) {
 		return nil, err
 	}
 	go r.acceptLoop(r.origin, "origin", r.serveOrigin)
-	go r.acceptLoop(r.upstream, "upstream", r.serveUpstream)
+	if r.upstream2, err = net.Listen("tcp", "127.0.0.1:0"); err != nil {
+		return nil, err
+	}
+	go r.acceptLoop(r.upstream, "upstream", func(c net.Conn) { r.serveUpstream(c, "upstream") })
+	go r.acceptLoop(r.upstream2, "upstream2", func(c net.Conn) { r.serveUpstream(c, "upstream2") })
 	return r, nil
 }
 
@@ -70,13 +75,15 @@ func (r *Rig) Close() {
 	close(r.closed)
 	r.origin.Close()
 	r.upstream.Close()
+	r.upstream2.Close()
 	if r.originTLS != nil {
 		r.originTLS.Close()
 	}
 }
 
-func (r *Rig) OriginAddr() string   { return r.origin.Addr().String() }
-func (r *Rig) UpstreamAddr() string { return r.upstream.Addr().String() }
+func (r *Rig) OriginAddr() string    { return r.origin.Addr().String() }
+func (r *Rig) UpstreamAddr() string  { return r.upstream.Addr().String() }
+func (r *Rig) Upstream2Addr() string { return r.upstream2.Addr().String() }
 
 func (r *Rig) acceptLoop(l net.Listener, name string, serve func(net.Conn)) {
 	for {
@@ -152,7 +159,7 @@ func (r *Rig) maybeTLS(c net.Conn, br *bufio.Reader) (net.Conn, *bufio.Reader, b
 	return tc, bufio.NewReader(tc), true
 }
 
-func (r *Rig) serveUpstream(c net.Conn) {
+func (r *Rig) serveUpstream(c net.Conn, peer string) {
 	defer c.Close()
 	br := bufio.NewReader(c)
 	for {
@@ -166,7 +173,7 @@ func (r *Rig) serveUpstream(c net.Conn) {
 		} else {
 			io.Copy(io.Discard, req.Body)
 		}
-		r.record(msgOf("upstream", kind, req))
+		r.record(msgOf(peer, kind, req))
 		if r.UpstreamRequire != "" && req.Header.Get("Proxy-Authorization") != r.UpstreamRequire {
 			fmt.Fprintf(c, "HTTP/1.1 407 Proxy Authentication Required\r\n%s: upstream\r\nProxy-Authenticate: Basic realm=\"upstream\"\r\nContent-Length: 0\r\n\r\n", MarkerHeader)
 			if req.Method == http.MethodConnect {
@@ -180,10 +187,10 @@ func (r *Rig) serveUpstream(c net.Conn) {
 			}
 			// the tunnel ends here: play the origin for whatever comes through (plain or TLS)
 			if tc, tbr, ok := r.maybeTLS(c, br); ok {
-				r.serveRequests(tc, tbr, "upstream", "tunnel-inner", "tunnel")
+				r.serveRequests(tc, tbr, peer, "tunnel-inner", "tunnel")
 				return
 			}
-			r.serveRequests(c, br, "upstream", "tunnel-inner", "tunnel")
+			r.serveRequests(c, br, peer, "tunnel-inner", "tunnel")
 			return
 		}
 		if writeOK(c, req, "upstream") != nil {
@@ -221,7 +228,7 @@ func (r *Rig) dialer(redirect, toTLS bool) func(ctx context.Context, network, ad
 		r.mu.Lock()
 		r.dials = append(r.dials, addr)
 		r.mu.Unlock()
-		if redirect && addr != r.UpstreamAddr() {
+		if redirect && addr != r.UpstreamAddr() && addr != r.Upstream2Addr() {
 			addr = r.OriginAddr()
 			if toTLS && r.originTLS != nil {
 				addr = r.originTLS.Addr().String()
